@@ -187,3 +187,9 @@ Definition print_fs_pinned (lenient : bool) (fs : fsys) (root : path) : predicte
   predict (run_fs fs root (print_cmd lenient)).
 Definition balance_fs_pinned (cfg : balance_cfg) (fs : fsys) (root : path) : predicted :=
   predict (run_fs fs root (balance_table cfg)).
+
+(* "some file of the include graph cannot be loaded (missing, unreadable, unparseable) or
+   includes itself": the loader's error, if any (LoaderProofs.included_error_fails_all,
+   cycle_is_error) *)
+Definition load_error (fs : fsys) (root : path) : option str :=
+  match Loader.load (fuel_for fs) fs root with LErr e => Some (lerror_name e) | _ => None end.
